@@ -2425,11 +2425,16 @@ namespace bloch::runtime {
                 return v;  // empty, default as int[] when untyped
             }
             Value first = eval(arr->elements[0].get());
+            // The first element was evaluated above to pick the array type: use that value, do not
+            // evaluate the expression (and its side effects) a second time.
+            auto elementValue = [&](const std::unique_ptr<Expression>& el) {
+                return &el == &arr->elements.front() ? first : eval(el.get());
+            };
             switch (first.type) {
                 case Value::Type::Bit:
                     v.type = Value::Type::BitArray;
                     for (auto& el : arr->elements) {
-                        Value ev = eval(el.get());
+                        Value ev = elementValue(el);
                         if (ev.type != Value::Type::Bit)
                             throw BlochError(ErrorCategory::Runtime, el->line, el->column,
                                              "inconsistent element types in array literal");
@@ -2439,7 +2444,7 @@ namespace bloch::runtime {
                 case Value::Type::Boolean:
                     v.type = Value::Type::BooleanArray;
                     for (auto& el : arr->elements) {
-                        Value ev = eval(el.get());
+                        Value ev = elementValue(el);
                         if (ev.type != Value::Type::Boolean)
                             throw BlochError(ErrorCategory::Runtime, el->line, el->column,
                                              "inconsistent element types in array literal");
@@ -2449,7 +2454,7 @@ namespace bloch::runtime {
                 case Value::Type::Int:
                     v.type = Value::Type::IntArray;
                     for (auto& el : arr->elements) {
-                        Value ev = eval(el.get());
+                        Value ev = elementValue(el);
                         if (ev.type != Value::Type::Int && ev.type != Value::Type::Bit)
                             throw BlochError(ErrorCategory::Runtime, el->line, el->column,
                                              "inconsistent element types in array literal");
@@ -2460,7 +2465,7 @@ namespace bloch::runtime {
                 case Value::Type::Long:
                     v.type = Value::Type::LongArray;
                     for (auto& el : arr->elements) {
-                        Value ev = eval(el.get());
+                        Value ev = elementValue(el);
                         if (ev.type != Value::Type::Long && ev.type != Value::Type::Int &&
                             ev.type != Value::Type::Bit)
                             throw BlochError(ErrorCategory::Runtime, el->line, el->column,
@@ -2476,7 +2481,7 @@ namespace bloch::runtime {
                 case Value::Type::Float:
                     v.type = Value::Type::FloatArray;
                     for (auto& el : arr->elements) {
-                        Value ev = eval(el.get());
+                        Value ev = elementValue(el);
                         if (ev.type != Value::Type::Float && ev.type != Value::Type::Int &&
                             ev.type != Value::Type::Long && ev.type != Value::Type::Bit)
                             throw BlochError(ErrorCategory::Runtime, el->line, el->column,
@@ -2494,7 +2499,7 @@ namespace bloch::runtime {
                 case Value::Type::String:
                     v.type = Value::Type::StringArray;
                     for (auto& el : arr->elements) {
-                        Value ev = eval(el.get());
+                        Value ev = elementValue(el);
                         if (ev.type != Value::Type::String)
                             throw BlochError(ErrorCategory::Runtime, el->line, el->column,
                                              "inconsistent element types in array literal");
@@ -2504,7 +2509,7 @@ namespace bloch::runtime {
                 case Value::Type::Char:
                     v.type = Value::Type::CharArray;
                     for (auto& el : arr->elements) {
-                        Value ev = eval(el.get());
+                        Value ev = elementValue(el);
                         if (ev.type != Value::Type::Char)
                             throw BlochError(ErrorCategory::Runtime, el->line, el->column,
                                              "inconsistent element types in array literal");
